@@ -29,7 +29,7 @@ EXPLANATION = (
     "reference best loss > 0, alpha a free Real or the sentinel -1, eps in [0,1], reward free, random draws = uninterpreted terms of "
     "(seed, counter)). z3 proves the update equations and the frame conditions (other entries unchanged) for that step. policy() - greedy choice "
     "for eps=0, index validity, determinism (equal seed and equal observation history => equal action) - is checked on states REACHED through the public "
-    "API: constructor, then every action sequence of length <= 3 (5 thorough) with symbolic rewards, alpha and eps; no state is injected there, "
+    "API: constructor, then every action sequence of length <= 3 with symbolic rewards, alpha and eps; no state is injected there, "
     "so an implementation may keep derived state. A step from an arbitrary state covers "
     "reward/observation histories of any length. Base case: the state built by the real constructor and by reset() for initial values "
     "given as Python int / float / numpy scalars (enumerated element types) followed by 1-3 symbolic updates."
@@ -45,25 +45,50 @@ REQUIRED_LABELS = ["reward_rule", "reference_moves_iff_improved", "learn_update"
 
 def bounds(tier):
     return {"quick": "n_actions 1..4, every action index, arbitrary symbolic Q/counts/alpha/eps/reward/losses for the learn/reward step; policy() after every action sequence of length 1..3 (symbolic rewards, alpha, eps) from the constructed state",
-            "thorough": "n_actions 1..8; plus 2..5 successive learn steps on the same action (count continuity); policy() after every action sequence of length <= 5"}[tier]
+            "thorough": "n_actions 1..8; plus 2..5 successive learn steps on the same action (count continuity); policy() after every action sequence of length <= 3 with up to 4 actions (longer products of the symbolic step size leave the solver without an answer)"}[tier]
 
 
 def _patches():
     return patched(eg, seedable, default_rng=sym_default_rng)
 
 
+def _seeded_env(prev, lifted):
+    """An environment whose reference loss is `prev`, reached through the PUBLIC route: the first update() of an RL scheduler
+    hands the best loss of the bootstrap batch to the environment (no private attribute is written by the harness)."""
+    import black_it.schedulers.rl.rl_scheduler as rls
+    from black_it.samplers.halton import HaltonSampler
+    from symx.npx import NPX, sym_float
+
+    env = mab.MABCalibrationEnv(3)
+    agent = eg.MABEpsilonGreedy(3, 0.5, 0.0, random_state=0)
+    sched = rls.RLScheduler([HaltonSampler(batch_size=1, random_state=0)], agent, env, random_state=0)
+    if lifted:
+        with patched(rls, np=NPX, float=sym_float):
+            sched.update(0, np.array([[0.5]]), [prev], None)
+    else:
+        sched.update(0, np.array([[0.5]]), [prev], None)
+    return env
+
+
 def case_reward():
+    """The reference loss is observed through behaviour: a second get_reward() with a symbolic probe value must pay relative to
+    the reference the rule prescribes after the first one."""
+
     def body(ctx):
         prev = ctx.real("prev")
         new = ctx.real("new")
+        probe = ctx.real("probe")
         ctx.assume(prev > 0)
-        env = mab.MABCalibrationEnv(3)
-        inject(env, "_curr_best_loss", prev)
+        env = _seeded_env(prev, True)
         r = env.get_reward(None, new)
         exp = z3.If(new.t < prev.t, (prev.t - new.t) / prev.t, z3.RealVal(0))
         ctx.prove(lift(r) == exp, "reward_rule")
-        ctx.prove(lift(env._curr_best_loss) == z3.If(new.t < prev.t, new.t, prev.t), "reference_moves_iff_improved")
         ctx.prove(z3.And(lift(r) >= 0, z3.Implies(new.t >= 0, lift(r) <= 1)), "reward_rule", "0 <= reward (<= 1 for non-negative losses)")
+        ref = z3.If(new.t < prev.t, new.t, prev.t)
+        ctx.assume(new > 0)  # the moved reference must be positive for the next relative improvement to be defined
+        r2 = env.get_reward(None, probe)
+        ctx.prove(lift(r2) == z3.If(probe.t < ref, (ref - probe.t) / ref, z3.RealVal(0)), "reference_moves_iff_improved",
+                  "the next reward is paid relative to min(previous reference, new loss)")
         ctx.sample({"prev": str(prev.t), "new": str(new.t), "reward": str(lift(r))})
         # unset reference must be an error, not a silent value
         env2 = mab.MABCalibrationEnv(3)
@@ -74,14 +99,24 @@ def case_reward():
             pass
 
     def replay(cex):
-        prev, new = float(f(cex.values["prev"])), float(f(cex.values["new"]))
-        env = mab.MABCalibrationEnv(3)
-        env._curr_best_loss = prev
-        r = env.get_reward(None, new)
-        exp = (Fraction(prev) - Fraction(new)) / Fraction(prev) if new < prev else 0
-        expref = new if new < prev else prev
-        bad = abs(Fraction(float(r)) - exp) > Fraction(1, 10**12) or env._curr_best_loss != expref
-        return bad, f"prev={prev} new={new}: reward={r} expected={float(exp)}; reference={env._curr_best_loss} expected={expref}"
+        v = cex.values
+        prev, new = float(f(v.get("prev") if v.get("prev") is not None else 1.0)), float(f(v.get("new") if v.get("new") is not None else 0.5))
+        probes = [float(f(v["probe"]))] if v.get("probe") is not None else []
+        for probe in probes + [new * 0.5, (new + prev) / 2.0, prev * 0.75, prev * 2.0]:
+            env = _seeded_env(prev, False)
+            r = env.get_reward(None, new)
+            exp = (Fraction(prev) - Fraction(new)) / Fraction(prev) if new < prev else Fraction(0)
+            expref = new if new < prev else prev
+            bad = abs(Fraction(float(r)) - exp) > Fraction(1, 10**12)
+            info = f"reference {prev}, new loss {new}: reward={r} expected={float(exp)}"
+            if not bad and expref > 0:
+                r2 = env.get_reward(None, probe)
+                exp2 = (Fraction(expref) - Fraction(probe)) / Fraction(expref) if probe < expref else Fraction(0)
+                bad = abs(Fraction(float(r2)) - exp2) > Fraction(1, 10**12)
+                info += f"; then loss {probe}: reward={r2} expected={float(exp2)} (reference should be {expref})"
+            if bad:
+                return True, info
+        return False, info
 
     return Case("reward", body, replay)
 
@@ -323,7 +358,7 @@ def cases(tier, seed):
     else:
         cs.append(case_learn(2, 1, steps=2))
     # policy() on states reached through the public API only (no injected state)
-    for n_, k_, iv_ in ([(2, 1, 0.05), (3, 2, 0.0), (2, 3, 0.0), (3, 1, 0.05)] if tier == "quick" else [(2, 1, 0.05), (3, 2, 0.0), (2, 3, 0.0), (3, 3, 0.05), (4, 3, 0.0), (2, 5, 0.0), (3, 4, 0.05)]):
+    for n_, k_, iv_ in ([(2, 1, 0.05), (3, 2, 0.0), (2, 3, 0.0), (3, 1, 0.05)] if tier == "quick" else [(2, 1, 0.05), (3, 2, 0.0), (2, 3, 0.0), (3, 3, 0.05), (4, 2, 0.0), (4, 3, 0.0), (3, 1, 0.05)]):
         cs.append(case_policy_history(n_, k_, iv_))
     # base case of the induction: the state the real constructor / reset() builds, for each element type of the initial value
     for iv_name, iv in (INIT_VALUES if tier == "thorough" else INIT_VALUES[:6]):
